@@ -18,7 +18,7 @@ func init() {
 	Register(&Spec{
 		ID:        "C10",
 		Technique: "runtime monitoring: load/save round-trip monitor (token identity, byte identity with Format, structural agreement with the hclsyntax view) around hclwrite.ParseConfig on generated configurations",
-		Rule: "each case is an error-free configuration (generated body tree with full expressions in noisy layout, a traversal-shape micro-case placed in a random expression position, or a comment-placement micro-case); hclwrite.ParseConfig(src).Bytes() is compared token-by-token with src and byte-by-byte with Format(src), and the tree's attributes/blocks/labels/variable references are compared with hclsyntax's parse of the same source; " +
+		Rule: "each case is an error-free configuration (generated body tree with full expressions in noisy layout, a traversal-shape micro-case placed in a random expression position, or a comment-placement micro-case); hclwrite.ParseConfig(src).Bytes() is compared token-by-token with src and byte-by-byte with Format(src), and the tree's attributes/blocks/labels/variable references are compared with hclsyntax's parse of the same source; 1 case in 3 loads the same source again as a fragment at a non-initial start position (same token sequence, same tree view); " +
 			"non-trivial = the file has >= 2 items and >= 1 traversal; distinct by source hash",
 		Assumptions: []string{"hclsyntax.ParseConfig/LexConfig define what the source says (C02/C14 are their monitors)"},
 		Quick:       Plan{Batches: 16, PerBatch: 1500, MinNonTrivial: 8000},
